@@ -532,7 +532,7 @@ func (g *Gen) any(kind string, w *WalletInfo) interface{} {
 		return badHash(g.blockHash)
 	case "smalluint":
 		// counts whose cost is proportional to the value: small, or not a number at all
-		return []string{"0", "1", "2", "3", "10", "64", "100", "-1", "", "abc", "1.5", "+1", " 1", "1e1", "0x10", "٣", "00002", "1,2"}[r.Intn(18)]
+		return []string{"0", "1", "2", "3", "5", "12", "20", "-1", "", "abc", "1.5", "+1", " 1", "1e1", "0x10", "٣", "00002", "1,2"}[r.Intn(18)]
 	case "seq", "uint", "int", "entropy", "hours":
 		if r.Intn(4) == 0 {
 			return fmt.Sprint(int(g.head) + r.Intn(3) - 1)
